@@ -1,4 +1,6 @@
+pub mod compile;
 pub mod maps;
+pub mod modules;
 pub mod stack;
 pub mod values;
 
@@ -12,6 +14,8 @@ pub fn all() -> Vec<Box<dyn Engine>> {
         Box::new(maps::HtEngine),
         Box::new(values::ValEngine),
         Box::new(values::TblEngine),
+        Box::new(modules::ModEngine),
+        Box::new(compile::CmpEngine),
     ]
 }
 
